@@ -26,15 +26,17 @@ var (
 	ErrI = errors.New("i")
 	ErrA = errors.New("a")
 	ErrB = errors.New("b")
+	// reference-typed values: "a" has the same CONTENT as the initial value "i" and "b" the same content as ... "a", but each
+	// is its own object - readers must observe the object that was set (identity), not an equal-looking one
 	PI   = &S{9, "i"}
-	PA   = &S{1, "a"}
-	PB   = &S{2, "b"}
+	PA   = &S{9, "i"}
+	PB   = &S{9, "i"}
 	MI   = map[string]int{"i": 9}
-	MA   = map[string]int{"a": 1}
-	MB   = map[string]int{"b": 2}
+	MA   = map[string]int{"i": 9}
+	MB   = map[string]int{"i": 9}
 	SI   = []int{9, 9}
-	SA   = []int{1}
-	SB   = []int{2, 2, 2}
+	SA   = []int{9, 9}
+	SB   = []int{9, 9}
 	CI   = make(chan int, 1)
 	CA   = make(chan int, 2)
 	CB   = make(chan int, 3)
